@@ -467,6 +467,77 @@ fn cache_add_raw(d: &mut SimpleStore, t: &Term) -> Result<(usize, String, u64), 
     Ok((d.add(v).map_err(de)?, want, h))
 }
 
+/// variant `parse`: constants enter through the `parse_add_*` functions the compiler uses for literals; terms headed `xcl` / `xbl`
+/// / `xl` are ABANDONED constructions (start + items, never ended — what a failed conversion or an interrupted host leaves
+/// behind): they add no value (Ok(None)) and must not leak into later constants
+fn cache_add_parse(d: &mut SimpleStore, t: &Term) -> Result<Option<(usize, String, u64)>, String> {
+    let de = |e: DataError| format!("ERR {}", e);
+    let items = match t {
+        Term::List(items) if !items.is_empty() => items,
+        _ => return Err("BAD-TERM".into()),
+    };
+    let head = atom(&items[0]).ok_or("BAD-TERM")?;
+    let num = |i: usize| -> Result<u64, String> { atom(items.get(i).ok_or("BAD-TERM")?).ok_or("BAD-TERM")?.parse::<u64>().map_err(|_| "BAD-TERM".to_string()) };
+    match head {
+        "xcl" => {
+            d.start_char_list().map_err(de)?;
+            for k in 1..items.len() {
+                d.add_to_char_list(char::from_u32(num(k)? as u32).ok_or("BAD-TERM")?).map_err(de)?;
+            }
+            Ok(None)
+        }
+        "xbl" => {
+            d.start_byte_list().map_err(de)?;
+            for k in 1..items.len() {
+                d.add_to_byte_list(num(k)? as u8).map_err(de)?;
+            }
+            Ok(None)
+        }
+        "xl" => {
+            let n = items.len() - 1;
+            let mut l = d.start_list(n).map_err(de)?;
+            for k in 1..items.len() {
+                let a = d.add_number(SimpleNumber::Integer(num(k)? as i32)).map_err(de)?;
+                l = d.add_to_list(l, a).map_err(de)?;
+            }
+            let _ = l;
+            Ok(None)
+        }
+        "cl" => {
+            let mut text = String::new();
+            let mut want = String::from("(cl");
+            for k in 1..items.len() {
+                let c = char::from_u32(num(k)? as u32).ok_or("BAD-TERM")?;
+                text.push(c);
+                want.push_str(&format!(" {}", c as u32));
+            }
+            want.push(')');
+            let a = d.parse_add_char_list(&format!("\"{}\"", text)).map_err(de)?;
+            Ok(Some((a, want, real_hash(SimpleData::CharList(text)))))
+        }
+        "bl" => {
+            let mut text = String::new();
+            let mut want = String::from("(bl");
+            let mut bytes = vec![];
+            for k in 1..items.len() {
+                let b = num(k)? as u8;
+                text.push(b as char);
+                bytes.push(b);
+                want.push_str(&format!(" {}", b));
+            }
+            want.push(')');
+            let a = d.parse_add_byte_list(&format!("'{}'", text)).map_err(de)?;
+            Ok(Some((a, want, real_hash(SimpleData::ByteList(bytes)))))
+        }
+        "i" => {
+            let v: i32 = atom(&items[1]).ok_or("BAD-TERM")?.parse().map_err(|_| "BAD-TERM")?;
+            let a = d.parse_add_number(&format!("{}", v)).map_err(de)?;
+            Ok(Some((a, format!("(i {})", v), real_hash(SimpleData::Number(SimpleNumber::Integer(v))))))
+        }
+        _ => Err("BAD-TERM".into()),
+    }
+}
+
 fn cache_add_term(d: &mut SimpleStore, t: &Term) -> Result<(usize, String, u64), String> {
     let items = match t {
         Term::List(items) if !items.is_empty() => items,
@@ -559,7 +630,18 @@ pub fn cache_case(f: &[&str]) -> String {
             Ok(t) => t,
             Err(_) => return "BAD-CASE".to_string(),
         };
-        match if f[2] == "raw" { cache_add_raw(&mut d, &t) } else { cache_add_term(&mut d, &t) } {
+        let added = if f[2] == "parse" {
+            match cache_add_parse(&mut d, &t) {
+                Ok(None) => continue,
+                Ok(Some(x)) => Ok(x),
+                Err(e) => Err(e),
+            }
+        } else if f[2] == "raw" {
+            cache_add_raw(&mut d, &t)
+        } else {
+            cache_add_term(&mut d, &t)
+        };
+        match added {
             Ok((a, w, x)) => {
                 addrs.push(a);
                 wants.push(w);
